@@ -788,6 +788,23 @@ pub(crate) fn check_if_response_is_matched(
         (0, total_count - reorg_count)
     };
 
+    // Whether there are sampled headers or not, the last header of the last-n section should be
+    // the parent of the last header.
+    {
+        let last_last_n_header_number = headers[headers.len() - 1].header().number();
+        let last_number = last_header.header().number();
+        if last_last_n_header_number.checked_add(1) != Some(last_number) {
+            let errmsg = format!(
+                "the last n headers should end at block#{} (the parent of the last header#{}), \
+                but they end at block#{}",
+                last_number.saturating_sub(1),
+                last_number,
+                last_last_n_header_number
+            );
+            return Err(StatusCode::MalformedProtocolMessage.with_context(errmsg));
+        }
+    }
+
     if sampled_count == 0 {
         if last_n_count > 0 {
             // If no sampled headers, the last_n_blocks should be all new blocks.
